@@ -27,10 +27,27 @@
 #include "ref/msgs.hpp"
 #include <cstring>
 #include <algorithm>
+#include <unistd.h>
+#include <fcntl.h>
 
 using namespace vf;
 
 namespace {
+
+// the descriptors of this process (numbers and what they point at): a session must give back exactly what it opened and
+// must not close anything it did not open
+std::string open_fds() {
+	std::string r;
+	for (int fd = 0; fd < 256; fd++) {
+		char path[64], target[256];
+		snprintf(path, sizeof path, "/proc/self/fd/%d", fd);
+		ssize_t k = readlink(path, target, sizeof target - 1);
+		if (k < 0) continue;
+		target[k] = 0;
+		r += std::to_string(fd) + "->" + target + " ";
+	}
+	return r;
+}
 
 // callbacks handed to a start call on a library that is already running: they must never be used
 ref::Bytes &alt_written() { static ref::Bytes b; return b; }
@@ -108,6 +125,7 @@ void prop(DP &dp, const ref::Bytes &sched, Ctx &ctx) {
 	std::vector<Recipe> recipes;
 	std::vector<Outcome> outcomes;
 	bool had_failed_then_ok = false, diff_flush = false, repeated = false, mid_start = false;
+	int sentinel_fd = -1, last_started_mode = -1;
 	bool last_failed = false;
 	bool unanswered_to_output = false;     // requests to a track output are unanswered (younger than the 2 s expiry) when stop is called
 	std::set<unsigned> flushes;
@@ -152,11 +170,18 @@ void prop(DP &dp, const ref::Bytes &sched, Ctx &ctx) {
 		n.bus.capacity = (uint8_t) r.capacity;
 		s.up.clear();
 		unsigned created0 = vf_threads_created(), joined0 = vf_threads_joined();
+		// an application descriptor opened between two sessions: a stale number kept by the library would now be the application's
+		if (k > 0 && sentinel_fd < 0) sentinel_fd = open("/dev/null", O_RDONLY);
+		const std::string fds0 = open_fds();
 		size_t mark_start = s.down.size();
 		int rc;
 		DP sp(r.script);
 		unanswered_to_output = false;
-		if (r.mode == 3) rc = s.start_debug(r.flush);
+		if (r.mode == 3) {
+			// the debug-mode switch survives bidib_stop: a later debug session need not set it again
+			if (last_started_mode == 3 && dp.chance(128)) { ctx.desc << "  (debug mode not set again)\n"; rc = s.start_debug_keep_mode(r.flush); }
+			else rc = s.start_debug(r.flush);
+		}
 		else if (r.mode == 2) {
 			cfg::Faulted f;
 			for (int q = 0; q < cfg::N_FAULT_CLASSES && f.cls.empty(); q++) f = cfg::inject_fault(n.c, (r.fault_cls + q) % cfg::N_FAULT_CLASSES, sp);
@@ -177,6 +202,7 @@ void prop(DP &dp, const ref::Bytes &sched, Ctx &ctx) {
 			if (s.down.size() != mark_start)
 				ctx.fail("SERIAL: a start on a serial device wrote " + std::to_string(s.down.size() - mark_start) + " bytes to the write callback of an earlier session: " + hex(s.since(mark_start)));
 		} else rc = n.start(r.flush);
+		last_started_mode = r.mode;          // every start attempt above sets the debug-mode switch (on for mode 3 only) or finds it on
 		int want = (r.mode == 0 || r.mode == 3) ? 0 : 1;
 		if (rc != want) ctx.fail("START: session " + std::to_string(k) + " (" + MN[r.mode] + ") returned " + std::to_string(rc) + ", expected " + std::to_string(want));
 		Outcome oc;
@@ -184,6 +210,7 @@ void prop(DP &dp, const ref::Bytes &sched, Ctx &ctx) {
 			// a failed start has stopped the library again
 			std::string an = lifecycle_anomalies(true);
 			if (!an.empty()) ctx.fail("LIFECYCLE after failed start of session " + std::to_string(k) + ": " + an);
+			{ std::string fds1 = open_fds(); if (fds1 != fds0) ctx.fail("DESCRIPTORS: open file descriptors before the failed start of session " + std::to_string(k) + ": [" + fds0 + "] after it: [" + fds1 + "]"); }
 			if (vf_threads_created() - created0 != vf_threads_joined() - joined0) ctx.fail("THREADS: failed start created " + std::to_string(vf_threads_created() - created0) + " threads but joined " + std::to_string(vf_threads_joined() - joined0));
 			last_failed = true;
 			outcomes.push_back(oc);
@@ -248,6 +275,15 @@ void prop(DP &dp, const ref::Bytes &sched, Ctx &ctx) {
 			t_bidib_node_address a = {1, 0, 0};
 			for (int q = sp.range(0, 12); q > 0; q--) bidib_send_sys_get_magic(a, 0);       // beyond the budget: deferred at stop
 			ref::Msg m{{1}, 1, M::SYS_PONG, {1}};
+			{
+				// what the interface sends is delivered - in every session, not only in the first one
+				int burst = sp.range(1, 3);
+				for (int q = 0; q < burst; q++) s.inject_packet({m});
+				s.settle();
+				int got = 0;
+				for (;;) { uint8_t *mm = bidib_read_message(); if (!mm) break; if (mm[0] >= 4 && mm[mm[0] - 1] == M::SYS_PONG) got++; free(mm); }
+				if (got != burst) ctx.fail("DELIVERY: session " + std::to_string(k) + " (debug mode) received " + std::to_string(burst) + " messages from the interface but delivered " + std::to_string(got) + " to bidib_read_message");
+			}
 			for (int q = sp.range(0, 4); q > 0; q--) s.inject_packet({m});
 			if (sp.flag()) s.advance((uint64_t) sp.range(1, 120) * 1000);
 		}
@@ -304,6 +340,7 @@ void prop(DP &dp, const ref::Bytes &sched, Ctx &ctx) {
 		if (!alt_written().empty()) ctx.fail("NOOP: bidib_stop wrote " + std::to_string(alt_written().size()) + " bytes to the callbacks of a start call that was made while the library was running");
 		std::string an = lifecycle_anomalies(true);
 		if (!an.empty()) ctx.fail("LIFECYCLE after stop of session " + std::to_string(k) + ": " + an);
+		{ std::string fds1 = open_fds(); if (fds1 != fds0) ctx.fail("DESCRIPTORS: open file descriptors before session " + std::to_string(k) + ": [" + fds0 + "] after its stop: [" + fds1 + "]"); }
 		if (vf_threads_created() - created0 != vf_threads_joined() - joined0)
 			ctx.fail("THREADS: session " + std::to_string(k) + " created " + std::to_string(vf_threads_created() - created0) + " threads but joined " + std::to_string(vf_threads_joined() - joined0));
 		if (r.mode == 0) {
